@@ -177,6 +177,5 @@ def process_challenge_response(relativity_map: dict[int, int], response: int) ->
     """
     Process a challenge response in a relativity map.
     """
-    multithread_update_lock.acquire()
-    relativity_map[response] += 1
-    multithread_update_lock.release()
+    with multithread_update_lock:  # Also released if the response is not one of the map's keys.
+        relativity_map[response] += 1
